@@ -602,6 +602,12 @@ impl Oracle {
                 // The returned counter tells the two apart unless both readings give the same number.
                 if ok && pres == Pres::Maybe {
                     if let (Some(rv), Some(it)) = (rvalue, self.item(key).cloned()) {
+                        if strict_decimal(&it.value).is_none() && plus_decimal(&it.value).is_some() {
+                            // "+digits": whether it counts as a number is unconstrained, so a success may be an update of the
+                            // live item (flags kept) as well as a creation — the returned number cannot tell
+                            self.keys.insert(key.to_vec(), KState::Unknown);
+                            return;
+                        }
                         let live_val = strict_decimal(&it.value).map(compute);
                         let could_live = live_val == Some(rv);
                         let could_create = rv == initial && exp != 0xffff_ffff;
